@@ -663,7 +663,8 @@ func TestCheck(t *testing.T) {
 			judge(r, a, nil, "direct-empty-nonnil")
 		}
 	}
-	r.Set("exhaustive", "every raw length 0..64 for every accessor")
+	r.Set("exhaustive", true)
+	r.Set("exhaustive_scope", "every raw length 0..64 for every accessor")
 	// reverse direction: constructor -> UpdateOption -> accessor
 	m := r.Pick(20000, 400000)
 	for i := 0; i < m; i++ {
